@@ -318,7 +318,7 @@ def gen_tree(rng, depth, ishape=None):
             return gen_factory(rng)
         sp_, o = gen_leaf(rng, ishape)
         return sp_, list(ishape), o
-    kind = rng.choice(["compose", "compose", "add", "sub", "neg", "scale", "conj", "hstack", "vstack", "diag", "H", "N"])
+    kind = rng.choice(["compose", "compose", "add", "sub", "neg", "scale", "scale", "conj", "hstack", "vstack", "diag", "H", "N"])
     if kind == "compose":
         b, bi, bo = gen_tree(rng, depth - 1, ishape)
         if bo is None:
@@ -340,7 +340,7 @@ def gen_tree(rng, depth, ishape=None):
     if kind == "scale":
         a, ai, ao = gen_tree(rng, depth - 1, ishape)
         sc = rng.choice([[2.0, 0.0], [0.5, 1.5], [0.0, -1.0], [-1.25, 0.75], [1.0, 0.0]])
-        return {"k": "scale", "a": sc, "side": rng.choice(["l", "r"]), "op": a}, ai, ao
+        return {"k": "scale", "a": sc, "side": rng.choice(["l", "r", "r"]), "op": a}, ai, ao
     if kind == "conj":
         a, ai, ao = gen_tree(rng, depth - 1, ishape)
         return {"k": "conj", "op": a}, ai, ao
